@@ -89,6 +89,7 @@ def oracle(case, out):
         return 'format_pattern and write_pattern differ: %r %s vs %r %s' % (fmt[0][:80], G.err_names(fmt[1])[:4], core['wrt'][0][:80],
                                                                               G.err_names(core['wrt'][1])[:4])
     for k, what in (('again', 'a repeated call after other messages were formatted'), ('fresh', 'a fresh bundle'),
+                    ('warm', 'a bundle on which every other message was formatted first'),
                     ('perm', 'arguments inserted in reverse order'), ('collect', 'arguments collected through FromIterator')):
         if extras.get(k) != fmt:
             return 'purity: %s gives %r %s, the first call gave %r %s' % (what, extras.get(k)[0][:80], G.err_names(extras.get(k)[1])[:4],
